@@ -164,6 +164,13 @@ def run_program(tier, idx, prog=None, plan=None, seed=None):
                                 sk.sbind(sig, a6, k6)
                                 group.append(('tailkw', a6, k6))
                         except (TypeError, ValueError): pass
+                # one tuple argument vs its elements spread over *args (`g((1, 2))` / `g(1, 2)`): different calls, and the flat key
+                # `((1, 2),)` must not be unwrapped into `(1, 2)`
+                if prog['varargs'] and prog['npos'] == 0 and not kw and not ign and not inst_first and len(args) == 1 and prog['kind'] in ('func', 'wrapped'):
+                    t = r.choice([(1, 2), ('a', 0.5), (7,)])
+                    group = [('base', [t], {}), ('tailkw', list(t), {})]
+                    args = [t]
+                    tags['spread-pair'] += 1
                 # typed clause: ==-equal values of different type (1, 1.0, True), also swapped across two
                 # parameters with the keywords spelled in the opposite order
                 a4, k4 = list(args), dict(kw)
